@@ -42,6 +42,10 @@ func runC05(e *Env) {
 	r.Rule("C05.R4", "flows", "store key and lookup key derive from the request's message ID", 4)
 	r.Rule("C05.R5", "tables+flows+paths", "247 s lifetime; an expired reply is hidden on lookup and replaced on store", 5)
 	r.Rule("C05.R6", "flows", "cached reply is a private copy", 1)
+	r.Rule("C05.R7", "paths", "the replay decodes the cached reply into the response completely (every header field overwritten, incl. an absent token)", 5)
+	if e.want("C05.R7") {
+		checkDecoderAssignsAll(e, "C05.R7")
+	}
 	hr := e.fn("C05.R1", "udp/client.Conn.handleReq")
 	if hr != nil && len(hr.Params) == 3 {
 		req := hr.Params[2]
@@ -334,7 +338,7 @@ func dependsOnlyOn(cond ssa.Value, v ssa.Value) bool {
 
 func runC06(e *Env) {
 	r := e.R
-	r.Rule("C06.R1", "paths", "retransmission only while not expired and due", 2)
+	r.Rule("C06.R1", "paths", "retransmission only while not expired and due; a failed copy does not give the request up", 3)
 	r.Rule("C06.R2", "flows", "expiry and due-time predicates; timer origin after the NSTART wait", 5)
 	r.Rule("C06.R3", "flows", "retransmitted bytes come from the private clone; Clone rewinds the body", 4)
 	r.Rule("C06.R4", "siblings", "every removal from the pending table releases the copy; ACK arm releases before waking the writer; the writer runs the cleanup on every exit", 7)
@@ -360,6 +364,17 @@ func runC06(e *Env) {
 			_, negDue := core.StripNot(due.Cond)
 			e.R.Check(core.OnlyViaEdge(exp, false, w), "C06.R1", "udp/client.Conn.checkMidHandlerContainer:not-expired", e.pos(w), "the retransmitting write is reachable only on the not-expired edge", "a copy can be sent although the entry is expired (attempts exhausted / deadline passed)")
 			e.R.Check(core.OnlyViaEdge(due, !negDue, w), "C06.R1", "udp/client.Conn.checkMidHandlerContainer:due", e.pos(w), "… and only when Retransmit() reported the next copy due", "a copy can be sent before it is due")
+			// a failed write of one copy does not give the request up: after the write nothing removes the pending entry
+			qa := &core.PathQuery{Fn: chk, From: w, Target: func(in ssa.Instruction) bool {
+				c, isC := in.(*ssa.Call)
+				if !isC {
+					return false
+				}
+				n := core.CalleeName(c)
+				return (n == "pkg/sync.Map.Delete" || n == "pkg/sync.Map.LoadAndDelete" || n == "pkg/sync.Map.DeleteWithFunc") && strings.HasSuffix(tableOf(c), ".midHandlerContainer")
+			}}
+			wa := qa.Find()
+			e.R.Check(wa == nil, "C06.R1", "udp/client.Conn.checkMidHandlerContainer:write-error-keeps-entry", e.pos(w), "the entry stays pending after a copy was written (or failed to be written): the remaining attempts and a late acknowledgement still count", "a transient write error of one retransmission abandons the request: "+e.trace(wa))
 		} else {
 			e.R.Fail("C06.R1", "udp/client.Conn.checkMidHandlerContainer:shape", e.fpos(chk), "expiry test, due test or the single retransmitting write not found")
 		}
